@@ -343,6 +343,61 @@ def el_enc(r):
     return bytes([t << 3 | 7]) + n.to_bytes(4, "big") + body
 
 
+def el_enc_w(r, w):
+    """harness encoder with a width tree {idx, kids} choosing the explicit size form of each node"""
+    t = r["t"]
+    if t in (6, 7):
+        body = b"".join(el_enc_w(k, wk) for k, wk in zip(r["kids"], w["kids"]))
+    elif t in (0, 1, 2, 3, 5):
+        return el_enc(r)
+    else:
+        body = bytes(r["v"])
+    n = len(body)
+    idx = w["idx"]
+    if idx == 5:
+        assert n <= 0xFF
+        return bytes([t << 3 | 5, n]) + body
+    if idx == 6:
+        assert n <= 0xFFFF
+        return bytes([t << 3 | 6]) + n.to_bytes(2, "big") + body
+    return bytes([t << 3 | 7]) + n.to_bytes(4, "big") + body
+
+
+def wleaf(i=0):
+    return {"idx": i, "kids": []}
+
+
+def sdp_wide_forms(quick, fresh_uuid):
+    """(tag, DataElement, width tree): every legal assignment of the forms 5 / 6 / 7 over a few shapes, at least
+    one node not minimal"""
+    import itertools
+
+    from bumble import sdp
+
+    D = sdp.DataElement
+    out = []
+    for n, forms in ((0, (6, 7)), (3, (6, 7)), (255, (6, 7)), (256, (7,))):
+        for i in forms:
+            out.append((f"text[{n}] form{i}", D.text_string(bytes((k * 7) & 0xFF for k in range(n))), wleaf(i)))
+    out.append(("url[4] form6", D.url("abcd"), wleaf(6)))
+    for i in (6, 7):
+        out.append((f"seq[0] form{i}", D.sequence([]), wleaf(i)))
+        out.append((f"alt[1xu8] form{i}", D.alternative([D.unsigned_integer_8(7)]), {"idx": i, "kids": [wleaf()]}))
+    # the usual shape of a record / attribute-list answer from another stack: lists announced with 0x36
+    shapes = list(itertools.product((5, 6, 7), repeat=3))
+    if quick:
+        shapes = [s_ for s_ in shapes if s_ != (5, 5, 5) and (7 not in s_ or s_ in ((7, 7, 7), (5, 7, 5), (6, 5, 7)))]
+    else:
+        shapes = [s_ for s_ in shapes if s_ != (5, 5, 5)]
+    for i, j, k in shapes:
+        e = D.sequence([D.unsigned_integer_16(0x0102), D.sequence([D.text_string(b"ab"), D.uuid(fresh_uuid[0][1])])])
+        w = {"idx": i, "kids": [wleaf(), {"idx": j, "kids": [wleaf(k), wleaf()]}]}
+        out.append((f"seq(u16,seq(text,uuid)) forms {i}{j}{k}", e, w))
+    rec = D.sequence([D.unsigned_integer_16(0x0001), D.sequence([D.uuid(fresh_uuid[0][1])]), D.unsigned_integer_16(0x0100), D.text_string(b"name")])
+    out.append(("attribute list, lists as 0x36", rec, {"idx": 6, "kids": [wleaf(), {"idx": 6, "kids": [wleaf()]}, wleaf(), wleaf(5)]}))
+    return out
+
+
 def sdp_elements(quick, rng, fresh_uuid):
     """(tag, DataElement) boundary set: integer widths and signs, the 1 / 2 / 4 octet size forms at
     255 / 256 / 65535 / 65536, nesting depths up to the parser's limit, UUID widths"""
@@ -396,6 +451,17 @@ def sdp_events(rec, quick, rng, fresh_uuid):
             return el_spec(p), bytes(el_fresh(p))
 
         rec.par("sdpel", "sdp", "DataElement", tag, raw, par, orig=r)
+    # legal non-minimal size forms (many stacks always announce lists with the 16-bit form): the values must be
+    # those of the element and the PARSED object must re-serialise to the octets it was parsed from
+    for tag, e, w in sdp_wide_forms(quick, fresh_uuid):
+        r = el_spec(e)
+        raw = el_enc_w(r, w)
+
+        def par_cached(b):
+            p = sdp.DataElement.from_bytes(b)
+            return el_spec(p), bytes(p)
+
+        rec.par("sdpel", "sdp", "DataElement", tag, raw, par_cached, wf="w", orig=r, ow=w)
     # non-canonical but legal size forms (a 4-octet size for a short string): values must still be right
     D = sdp.DataElement
     for tag, raw, intended in (("text[3] size32", bytes([4 << 3 | 7, 0, 0, 0, 3]) + b"abc", D.text_string(b"abc")),
